@@ -5,10 +5,13 @@ import (
 	"bytes"
 	"context"
 	"fmt"
+	"math/rand"
+	"sync/atomic"
 	"time"
 
 	"github.com/LiskHQ/lisk-engine/pkg/blockchain"
 	"github.com/LiskHQ/lisk-engine/pkg/consensus"
+	"github.com/LiskHQ/lisk-engine/pkg/p2p"
 
 	"verifharness/internal/mon"
 	"verifharness/internal/node"
@@ -328,16 +331,210 @@ func history(k *mon.Case, tieBreak bool) {
 
 var _ = blockchain.IDLength
 
+// afterSync: like after, for a step that may have applied (and removed) many blocks: the
+// finalize events of the step must chain from the previous finalized height to the new one
+// without a gap - one event per raise, none missing, none extra.
+func (m *monitor) afterSync(step string, wit map[string]any) {
+	m.steps++
+	k, n := m.k, m.n
+	wit["step"], wit["step_no"] = step, m.steps
+	fin, err := n.Chain.DataAccess().GetFinalizedHeight()
+	if err != nil {
+		k.Violation("finalized-height:unreadable:"+step, "finalized height cannot be read: "+err.Error(), wit)
+		return
+	}
+	wit["finalized_before"], wit["finalized_after"] = m.fin, fin
+	if fin < m.fin {
+		k.Violation("finalized-height:decreased:"+step, "stored finalized height decreased", wit)
+	}
+	for h, id := range m.seen {
+		hdr, err := n.Chain.DataAccess().GetBlockHeaderByHeight(h)
+		if err != nil || !bytes.Equal(hdr.ID, id) {
+			wit["height"] = h
+			k.Violation("finalized-block:replaced:"+step, "the block served for a finalized height changed or is no longer served", wit)
+			break
+		}
+	}
+	var chain [][2]uint32
+	for _, e := range n.TakeEvents() {
+		if e.Topic == consensus.EventBlockFinalize {
+			if fm, ok := e.Msg.(*consensus.EventBlockFinalizeMessage); ok {
+				chain = append(chain, [2]uint32{fm.Original, fm.Next})
+			}
+		}
+	}
+	wit["finalize_events"] = fmt.Sprint(chain)
+	at := m.fin
+	ok := true
+	for _, ev := range chain {
+		if ev[0] != at || ev[1] <= ev[0] {
+			ok = false
+		}
+		at = ev[1]
+	}
+	if !ok || at != fin {
+		k.Violation("finalize-event:do-not-chain-to-the-stored-height:"+step, "the EventBlockFinalize messages of the step do not lead, raise by raise, from the previous finalized height to the stored one", wit)
+	}
+	if fin > m.fin {
+		k.Count("finality_raises_during_sync", len(chain))
+		m.fin = fin
+	}
+	_, precommitted, _ := n.Heights()
+	if fin < precommitted {
+		wit["precommitted"] = precommitted
+		k.Violation("finalized-height:below-precommitted:"+step, "after the step the stored finalized height is below the chain's precommitted height", wit)
+	}
+	m.record()
+}
+
+var ipCounter atomic.Int32
+
+func listen(shard int) []string {
+	n := ipCounter.Add(1)
+	return []string{fmt.Sprintf("/ip4/127.%d.%d.%d/tcp/0", 40+shard, n/250, 1+n%250)}
+}
+
+func plain(n *node.Node, r *rand.Rand) (*blockchain.Block, error) {
+	o := n.RandomOpts(r)
+	if o.Directive != nil {
+		o.Directive.Change = nil
+	}
+	for try := 0; try < 10; try++ {
+		b, err := n.NextBlock(o)
+		if err != node.ErrWouldContradict {
+			return b, err
+		}
+		o.SlotsAhead++
+	}
+	return nil, fmt.Errorf("no slot")
+}
+
+// syncHistory: the node receives, from a real peer over loopback libp2p, the tip of a better
+// chain and catches up through Executer.process (fast sync or block sync); finality advances
+// while the sync applies the downloaded blocks.
+func syncHistory(k *mon.Case, shard int) {
+	r := k.R
+	nv := 3 + r.Intn(3)
+	base := node.Config{Genesis: node.EqualGenesis(nv), Universe: nv, BatchSize: nv, MaxBlockCache: 50}
+	cfgA := base
+	cfgA.P2PAddresses = listen(shard)
+	a, err := node.New(cfgA)
+	if err != nil {
+		k.Inconclusive("node-init:" + err.Error())
+		return
+	}
+	defer a.Close()
+	cfgB := base
+	cfgB.GenesisTimestamp = a.Cfg.GenesisTimestamp
+	cfgB.P2PAddresses = listen(shard)
+	b, err := node.New(cfgB)
+	if err != nil {
+		k.Inconclusive("node-init:" + err.Error())
+		return
+	}
+	defer b.Close()
+	prefix := r.Intn(20)
+	for i := 0; i < prefix; i++ {
+		blk, err := plain(a, r)
+		if err != nil || a.Apply(blk) != nil || b.Apply(node.CloneBlock(blk)) != nil {
+			k.Inconclusive("build-prefix")
+			return
+		}
+	}
+	b.GenHist = map[string]uint32{}
+	for key, v := range a.GenHist {
+		b.GenHist[key] = v
+	}
+	m := newMonitor(k, a)
+	forkA := 0
+	if r.Intn(2) == 0 {
+		forkA = 1 + r.Intn(2)
+	}
+	for i := 0; i < forkA; i++ {
+		blk, err := plain(a, r)
+		if err != nil || a.Apply(blk) != nil {
+			k.Inconclusive("build-fork-a")
+			return
+		}
+		m.after("apply", true, nil)
+	}
+	if a.Finalized() > uint32(prefix) {
+		k.Inconclusive("own-fork-finalized")
+		return
+	}
+	ahead := forkA + 1 + r.Intn(2*nv-forkA)
+	if r.Intn(3) == 0 {
+		ahead = 2*nv + 2 + r.Intn(3*nv) // beyond two rounds: block sync
+	}
+	for i := 0; i < ahead; i++ {
+		blk, err := plain(b, r)
+		if err != nil || b.Apply(blk) != nil {
+			k.Inconclusive("build-fork-b")
+			return
+		}
+	}
+	addrs, err := b.Conn.MultiAddress()
+	if err != nil || len(addrs) == 0 {
+		k.Inconclusive("peer-setup")
+		return
+	}
+	remote, err := p2p.AddrInfoFromMultiAddr(addrs[0])
+	if err != nil {
+		k.Inconclusive("peer-setup")
+		return
+	}
+	ctx, cancel := context.WithTimeout(context.Background(), 20*time.Second)
+	err = a.Conn.Connect(ctx, *remote)
+	cancel()
+	if err != nil {
+		k.Inconclusive("connect:" + err.Error())
+		return
+	}
+	finBefore := a.Finalized()
+	for round := 0; round < 3 && !bytes.Equal(a.Tip().Header.ID, b.Tip().Header.ID); round++ {
+		if round > 0 {
+			nb, err := plain(b, r)
+			if err != nil || b.Apply(nb) != nil {
+				break
+			}
+		}
+		pctx, pcancel := context.WithTimeout(context.Background(), 45*time.Second)
+		perr := a.Exec.VerifProcess(pctx, node.CloneBlock(b.Tip()), remote.ID)
+		pcancel()
+		m.afterSync("sync", map[string]any{"prefix": prefix, "fork_a": forkA, "ahead_b": ahead, "validators": nv, "process_error": fmt.Sprint(perr), "a_tip": a.Tip().Header.Height, "b_tip": b.Tip().Header.Height})
+	}
+	if bytes.Equal(a.Tip().Header.ID, b.Tip().Header.ID) {
+		k.Count("syncs_converged", 1)
+		if a.Finalized() > finBefore {
+			k.Nontrivial(fmt.Sprintf("sync|forkA%d|fast%v|raised%d", forkA, ahead <= 2*nv, (a.Finalized()-finBefore+2)/3))
+		}
+	} else {
+		k.Count("syncs_not_converged_not_judged_here", 1)
+	}
+	// a few more blocks of its own afterwards
+	for i := 0; i < r.Intn(4); i++ {
+		blk, err := plain(a, r)
+		if err != nil || a.Apply(blk) != nil {
+			break
+		}
+		m.after("apply", true, nil)
+	}
+	k.Sample(map[string]any{"validators": nv, "prefix": prefix, "fork_a": forkA, "ahead_b": ahead, "finalized_before": finBefore, "finalized_after": a.Finalized()})
+}
+
 func main() {
 	mon.Main(mon.Options{
 		Property: "C04", Level: "exploration",
-		Rule: "random single-node histories on a real Chain+Executer (valid blocks with txs/assets/events/validator changes, siblings of the tip delivered through Executer.process incl. double forging and a real tie-break in the current wall-clock slot, invalid blocks, delete requests at/below/above the finalized height, runs of deletes followed by another branch, restarts); a monitor re-reads the finalized height, every block ever seen at a finalized height, and the EventBlockFinalize log after every step; non-trivial+distinct = history in which finality advanced, keyed by (finality reached, siblings, deletes, refused finalized deletes, invalid blocks, restarts)",
+		Rule: "random single-node histories on a real Chain+Executer (valid blocks with txs/assets/events/validator changes, siblings of the tip delivered through Executer.process incl. double forging and a real tie-break in the current wall-clock slot, invalid blocks, delete requests at/below/above the finalized height, runs of deletes followed by another branch, restarts; stream sync: catching up with a real peer through fast sync / block sync while finality advances); a monitor re-reads the finalized height, every block ever seen at a finalized height, and the EventBlockFinalize log after every step; non-trivial+distinct = history in which finality advanced, keyed by (finality reached, siblings, deletes, refused finalized deletes, invalid blocks, restarts)",
 		Assumptions: []string{
-			"sync-driven deletions (fast sync / block sync) are exercised by the C19 network worker with the same monitor conditions",
+			"stream sync: an honest peer over loopback libp2p (real fast sync / block sync through Executer.process); peers serving invalid segments are exercised by the C19 network worker, which re-reads the finalized blocks too",
 			"single delete requests below the tip use the real stored block of that height (the engine's callers only ever pass the tip)",
 		},
 	}, func(c *mon.Ctx) {
 		c.Cases("history", c.N(1200, 20000), func(k *mon.Case) { history(k, false) })
 		c.Cases("tiebreak", c.N(160, 2000), func(k *mon.Case) { history(k, true) })
+		c.Cases("sync", c.N(96, 1600), func(k *mon.Case) {
+			k.Watch("sync", 240*time.Second, func() { syncHistory(k, c.Shard()) })
+		})
 	})
 }
